@@ -244,7 +244,7 @@ def eval_wire(args):
     objs = []
     for k, idx in enumerate(picks):
         vals = wc.gen_message(rng, table[idx])
-        if k == 0 and not _plant_long_string(vals, n):
+        if k == 0 and n and not _plant_long_string(vals, n):
             return {'skip': 'no-string-leaf'}
         try:
             objs.append(wc.build(m, p, table[idx], vals))
@@ -260,18 +260,24 @@ def eval_wire(args):
         snd = _connection(fam, d, obf, AsyncMock())
         snd._writer = w
         snd.state = ConnectionState.CONNECTED
-        if mode == 'gather':
+        if mode == 'seq':                           # one after the other, no back-pressure: plain delivery of every class
+            w.drain_gate = None
+            for o in objs:
+                await snd.send_message(o)
+            tasks = []
+        elif mode == 'gather':
             tasks = [loop.create_task(snd.send_message(o)) for o in objs]
         else:
             tasks = snd.queue_messages(*objs)
-        for _ in range(6):                       # the transport lets go a little at a time
+        for _ in range(6 if tasks else 0):        # the transport lets go a little at a time
             await simloop.settle()
             w.drain_gate.set()
             await simloop.settle()
             if all(t.done() for t in tasks):
                 break
             w.drain_gate = asyncio.Event()
-        w.drain_gate.set()
+        if w.drain_gate is not None:
+            w.drain_gate.set()
         await asyncio.gather(*tasks, return_exceptions=True)
         for t in tasks:
             if t.exception() is not None:
@@ -309,11 +315,13 @@ def eval_wire(args):
         return out
     if out.get('missing') or out.get('got') != len(objs) or out.get('recv_exc'):
         out['mon'].append(('C01-roundtrip',
-                           f'{len(objs)} messages handed to one connection at the same time ({mode}, obfuscated={obf}, the first '
-                           f'with a string of {n} characters) under back-pressure: the far end read {out.get("got")} messages, '
+                           (f'{len(objs)} messages sent one after the other over one connection (obfuscated={obf}): ' if mode == 'seq'
+                            else f'{len(objs)} messages handed to one connection at the same time ({mode}, obfuscated={obf}, the '
+                                 f'first with a string of {n} characters) under back-pressure: ')
+                           + f'the far end read {out.get("got")} messages, '
                            f'{len(out.get("missing") or [])} of the sent ones are missing or differ'
                            + (f'; its reader raised {out["recv_exc"]}' if out.get('recv_exc') else '')
-                           + ' (frames of different messages are mixed on the wire)'))
+                           + ('' if mode == 'seq' else ' (frames of different messages are mixed on the wire)')))
     return out
 
 
@@ -543,6 +551,15 @@ class C01(Property):
             wcases.append((gen_table, fam, d, picks, rng.choice([70_000, 200_000, 1_000_000]),
                            rng.random() < 0.4 and fam != 'server',       # the server connection is never obfuscated
                            rng.choice(['gather', 'queue']), rng.randrange(1 << 30)))
+        # … and every sendable class once through a real sending and a real receiving connection, in batches of small messages
+        # (n = 0: no long string is planted): the frame reader must accept every frame the codec produces — the shortest one
+        # is one byte long (DistributedPing: a uint8 code and nothing else)
+        for (fam, d), idxs in sorted(by_fd.items()):
+            if fam == 'peerinit':
+                continue
+            for a in range(0, len(idxs), 4):
+                wcases.append((gen_table, fam, d, idxs[a:a + 4], 0, (a // 4) % 2 == 1 and fam != 'server', 'seq',
+                               rng.randrange(1 << 30)))
         wouts = common.parallel_map(eval_wire, wcases, workers=8, chunksize=2)
         for (_t, fam, d, picks, n, obf, mode, sd), o in zip(wcases, wouts):
             res.evaluations += 1
